@@ -64,9 +64,49 @@ var (
 	rng *rand.Rand
 
 	stats = map[string]int{}
+	// oneGraph: at a newly visited state issue the lookups on one randomly chosen graph only (quick tier)
+	oneGraph bool
+	// lookupEvery: in random histories issue the lookups after every n-th step on average
+	lookupEvery = 25
 )
 
 func key(s []int) string { return fmt.Sprint(s) }
+
+type idxDump struct {
+	N  string  `json:"n"`
+	Bs [][]int `json:"bs"`
+}
+type dEvent struct {
+	Ev  string    `json:"ev"`
+	G   string    `json:"g"`
+	Idx []idxDump `json:"idx"`
+}
+
+// dumpIndexes logs the seven index maps of graph gname (Layer B binding).
+func dumpIndexes(st storage.Store, gname string) {
+	g, err := st.Graph(ctx, gname)
+	if err != nil {
+		return
+	}
+	m, ok := memory.VerifDumpIndexes(g)
+	if !ok {
+		return
+	}
+	ev := dEvent{Ev: "D", G: gname, Idx: []idxDump{}}
+	for _, n := range []string{"idx", "S", "P", "O", "SP", "PO", "SO"} {
+		d := idxDump{N: n, Bs: [][]int{}}
+		for _, b := range m[n] {
+			ids := []int{}
+			for _, t := range b {
+				ids = append(ids, u.TripleID(t))
+			}
+			d.Bs = append(d.Bs, ids)
+		}
+		ev.Idx = append(ev.Idx, d)
+	}
+	tw.Emit(ev)
+	stats["index_dumps"]++
+}
 
 func must(err error) {
 	if err != nil {
@@ -253,8 +293,12 @@ func tour(edgesPath string, names []string, lookups bool, anchorEvery int, sampl
 	steps, desync := 0, 0
 	visit := func() {
 		if lookups && !visited[cur] {
-			for _, n := range names {
+			for i, n := range names {
+				if oneGraph && i != rng.Intn(len(names)) {
+					continue
+				}
 				allLookups(st, n, "C02")
+				dumpIndexes(st, n)
 			}
 		}
 		visited[cur] = true
@@ -280,7 +324,9 @@ func tour(edgesPath string, names []string, lookups bool, anchorEvery int, sampl
 		}
 		cur = got
 		if lookups && visited[cur] && sampleLookups > 0 && rng.Intn(sampleLookups) == 0 {
-			allLookups(st, names[rng.Intn(len(names))], "C02")
+			n := names[rng.Intn(len(names))]
+			allLookups(st, n, "C02")
+			dumpIndexes(st, n)
 		}
 		visit()
 		if anchorEvery > 0 && tw.N%anchorEvery < 2 {
@@ -396,8 +442,9 @@ func randomHist(names []string, steps int, lookups bool, anchorEvery int) {
 				apply(st, names, "Remove", g, b)
 			}
 		}
-		if lookups && rng.Intn(25) == 0 {
+		if lookups && rng.Intn(lookupEvery) == 0 {
 			allLookups(st, g, "C02")
+			dumpIndexes(st, g)
 		}
 	}
 	stats["steps"] = steps
@@ -551,6 +598,8 @@ func main() {
 	full := fs.Bool("full", false, "full product (options)")
 	nt := fs.Int("nt", 0, "restrict the universe to its first N triples")
 	statsOut := fs.String("stats", "", "stats json output")
+	fs.BoolVar(&oneGraph, "one-graph", false, "lookups on one random graph per new state")
+	fs.IntVar(&lookupEvery, "lookup-every", 25, "random histories: lookups after every n-th step on average")
 	must(fs.Parse(os.Args[2:]))
 	var err error
 	u, err = uni.Load(*up)
